@@ -37,8 +37,8 @@ PLANS["C10"] = {
     "thorough": [J("wedge", "p=2,f=3,s=2", 900)],
 }
 PLANS["C11"] = {
-    "quick": [J("reqresp", "p=1,f=1,sel=1", 60), J("reqresp", "f=1,s=2", 40)],
-    "thorough": [J("reqresp", "p=3,f=2,s=2,sel=1", 900)],
+    "quick": [J("reqresp", "p=1,f=1,sel=1", 60), J("reqresp", "f=1,s=2", 40), J("c11-idwrap", "quick", 120, test="TestE3", shards=1)],
+    "thorough": [J("reqresp", "p=3,f=2,s=2,sel=1", 900), J("c11-idwrap", "thorough", 120, test="TestE3", shards=1)],
 }
 PLANS["C12"] = {
     "quick": [J("shutdown1", "p=1,f=1,s=1", 60), J("shutdown1lazy", "p=1,f=1", 40), J("shutdown2", "p=1,f=1,sel=1", 60)],
@@ -59,7 +59,7 @@ PLANS["C07"] = {
 }
 
 PLANS["C17"] = {
-    "quick": [J("window21", "p=1,f=1", 30), J("window21wrap", "c=1,f=1", 60), J("window10", "p=1,f=1", 15), J("window3neg", "c=1,f=1", 30), J("c17-longrun", "quick", 120, test="TestE3", shards=4), J("c17-slots", "quick", 120, test="TestE3", shards=1)],
+    "quick": [J("window21", "p=1,f=1", 30), J("window21wrap", "c=1,f=1", 60), J("window10", "p=1,f=1", 15), J("window3neg", "c=1,f=1", 30), J("c17-longrun", "quick", 120, test="TestE3", shards=4), J("c17-slots", "quick", 120, test="TestE3", shards=1), J("c11-idwrap", "quick", 120, test="TestE3", shards=1)],
     "thorough": [J("window21", "p=2,f=2,c=1,s=1", 400), J("window21wrap", "p=2,f=2,c=1,s=1", 400), J("window10", "p=2,f=2,c=1", 200), J("window3neg", "p=2,f=2,c=1", 200), J("c17-longrun", "thorough", 600, test="TestE3", shards=4), J("c17-slots", "thorough", 120, test="TestE3", shards=1)],
 }
 PLANS["C18"] = {
@@ -78,8 +78,8 @@ PLANS["C09"] = {
 }
 
 PLANS["C15"] = {
-    "quick": [J("c15-codec", "quick", 120, test="TestE3")],
-    "thorough": [J("c15-codec", "thorough", 900, test="TestE3")],
+    "quick": [J("c15-codec", "quick", 120, test="TestE3"), J("puborder", "p=1,f=1", 60)],
+    "thorough": [J("c15-codec", "thorough", 900, test="TestE3"), J("puborder", "p=2,f=1,s=1", 600), J("restart", "c=1,p=1", 300)],
 }
 PLANS["C20"] = {
     "quick": [J("c20-doubles", "quick", 120, test="TestE3")],
